@@ -1,7 +1,7 @@
 package main
 
 // C19 — cim2cas: cassette sync header, ten 0xD0 type bytes, six-character
-// name (truncated or space padded; default: the input file name), sync header
+// name (the -nam value truncated or space padded), sync header
 // again, start/end/exec words, unmodified image.
 
 var vSync = [8]uint8{0x1f, 0xa6, 0xde, 0xba, 0xcc, 0x13, 0x7d, 0x74}
@@ -36,17 +36,17 @@ func VC19Cas(k, m int) {
 	for i := 0; i < 10; i++ {
 		vAssert("type", vOutByte(8+i) == 0xd0)
 	}
-	// the name: -nam if given, else the file name; first six characters, space padded
-	for i := 0; i < 6; i++ {
-		var want uint8 = ' '
-		if m > 0 {
+	// the name given with -nam: first six characters, space padded.  Which name is
+	// used when -nam is absent is not part of the property (today: the input file
+	// name); the layout around it is checked all the same.
+	if m > 0 {
+		for i := 0; i < 6; i++ {
+			var want uint8 = ' '
 			if i < m {
 				want = tape[i]
 			}
-		} else if i < k {
-			want = name[i]
+			vAssert("name", vOutByte(18+i) == want)
 		}
-		vAssert("name", vOutByte(18+i) == want)
 	}
 	end := off + uint16(n) - 1
 	vAssert("start", vAnd(vOutByte(32) == uint8(off), vOutByte(33) == uint8(off>>8)))
